@@ -37,6 +37,8 @@ CLAIMED = {
    text="Interval specifications generated around a focus instant go through the real config parser; every flush instant of a group that would otherwise always notify is judged by a reference calendar written from the documented field semantics: muted flushes must send nothing, others must notify, and GET /alerts/groups must report exactly the muting interval names of the last flush. Only instants the simulated clock visits are judged (the all-instants sweep is a pure-function enumeration outside this technique)."),
  "C18": dict(category="exploration", ref="5 (C18)", technique=SIM + "; admission histories with unordered end times x provider GC instants; blocking response writers for the GET-concurrency probe",
    text="Per-name limit: counts of unexpired alerts per name after every POST, re-sends of admitted alerts, admission while room, refusal counter; silence count/size limits with rejected calls leaving state untouched; GET concurrency: `limit` GETs parked in flight, further GETs 503, POST unaffected, counter moved."),
+ "C19": dict(category="exploration", ref="5 (C19)", technique=SIM + "; 2-4 real clustered instances (real cluster.Peer + memberlist) over the simulated network with drop/dup/delay/partitions, late joins, a foreign memberlist node injecting garbage; bounded-liveness oracle over recorded per-instance views",
+   text="Bounded liveness after faults stop: every silence/notification-log update accepted anywhere at least 12 push/pull intervals + 40 s ago is held by every live instance in its newest version; oversized updates (reliable channel) and small updates in two-instance clusters arrive within 10 s in a fault-free phase; a late joiner holds its seed peer's state 8 s after joining; valid state offered by a foreign peer next to malformed/unknown parts is merged, garbage corrupts nothing. Gossip itself is probabilistic, so tighter bounds are asserted only where delivery is certain."),
  "C20": dict(category="exploration", ref="5 (C20)", technique=SIM + "; per-attempt outcome windows, flush reconstruction from the backoff schedule, notification-log dumps, payload laws",
    text="Every run injects receiver faults; oracles: recoverable failures are retried within the backoff cap unless the flush deadline intervenes, unrecoverable ones are not retried before the next tick, failed flushes with something new to say are attempted again, resolved alerts survive a failed flush, log entries with firing alerts have a preceding 2xx, siblings of a failing integration still obey dedup and O1, payload status/common labels/annotations/max_alerts/truncatedAlerts laws hold on every request."),
 }
